@@ -598,6 +598,28 @@ func DeepCalls(fn *ssa.Function, match func(string) bool, stopAt func(*ssa.Funct
 	return out
 }
 
+// AllDeepCalls lists every call in fn's region (fn, its closures and the unexported helpers
+// entered through frames), each with its frame; unlike DeepCalls a listed call is also entered.
+func AllDeepCalls(fn *ssa.Function, stopAt func(*ssa.Function) bool) []DeepCall {
+	var out []DeepCall
+	var visit func(f *ssa.Function, fr *Frame)
+	visit = func(f *ssa.Function, fr *Frame) {
+		for _, call := range Calls(f) {
+			out = append(out, DeepCall{call, fr})
+			if cc, ok := call.(*ssa.Call); ok {
+				if callee := Followable(cc, fr); callee != nil && (stopAt == nil || !stopAt(callee)) {
+					visit(callee, &Frame{Site: cc, Callee: callee, Parent: fr})
+				}
+			}
+		}
+		for _, a := range f.AnonFuncs {
+			visit(a, fr)
+		}
+	}
+	visit(fn, nil)
+	return out
+}
+
 // RegionOf returns fn, its closures and - transitively, up to three levels - the unexported
 // repository functions they call statically (helpers extracted from fn), each once.
 // stop (optional) names further callees that are not entered.
